@@ -56,7 +56,25 @@ class Sched:
         self.failed = None
         self.client_file = client_file
         self.change_points = set()
-        self.events = []             # abstract shared-memory events for the Lean replay
+        self.events = []             # (event line, real observation) for the Lean replay
+        self.observer = None
+
+    # ---------------------------------------------------------------- abstract events (replayed through the Lean models)
+    def tid(self, st=None):
+        st = st or self.me()
+        if st is None:
+            return None
+        n = st.name
+        return 0 if n == "loop" else 1 if n == "ctl" else 2 + int(n[3:])
+
+    def ev(self, *words):
+        """record one shared-memory event of the running thread, with the real state right after it
+        (`self.observer(group, tid, words)`, set by the harness)"""
+        t = self.tid()
+        if t is None:
+            return
+        o = self.observer(words[0], t, words[1:]) if self.observer is not None else "ok"
+        self.events.append((f"{words[0]} {t} " + " ".join(str(w) for w in words[1:]), o))
 
     # ---------------------------------------------------------------- thread management
     def spawn(self, name, fn, daemon=True):
@@ -76,6 +94,8 @@ class Sched:
                 st.exc = e
             finally:
                 sys.settrace(None)
+                if st.exc is None:
+                    sched.ev("lk", "finish")
                 st.status = "done"
                 sched._handover(st, finishing=True)
         th = threading.Thread(target=run, name=name, daemon=daemon)
@@ -236,8 +256,25 @@ class SLock(W.DLock):
         if s is not None and blocking:
             if self.owner == me:
                 raise W.SelfDeadlock(self.name)
+            s.ev("lk", "request", self.name)
             s.block_until(lambda: not self._l.locked(), f"lock {self.name}")
-        return super().acquire(blocking, timeout)
+        ok = super().acquire(blocking, timeout)
+        if s is not None and ok:
+            if blocking:
+                s.ev("lk", "grant")
+            else:
+                s.ev("lk", "try", self.name)
+            if self.name == "_mid_generate_mutex":
+                s.ev("mid", "enter")
+        return ok
+
+    def release(self):
+        s = SLock.SCHED
+        if s is not None:
+            if self.name == "_mid_generate_mutex":
+                s.ev("mid", "leave")
+            s.ev("lk", "release", self.name)
+        return super().release()
 
 
 class SRLock(W.DRLock):
@@ -245,8 +282,21 @@ class SRLock(W.DRLock):
         s = SLock.SCHED
         me = threading.get_ident()
         if s is not None and blocking:
+            s.ev("lk", "request", self.name)
             s.block_until(lambda: self.owner in (None, me), f"rlock {self.name}")
-        return super().acquire(blocking, timeout)
+        ok = super().acquire(blocking, timeout)
+        if s is not None and ok:
+            if blocking:
+                s.ev("lk", "grant")
+            else:
+                s.ev("lk", "try", self.name)
+        return ok
+
+    def release(self):
+        s = SLock.SCHED
+        if s is not None:
+            s.ev("lk", "release", self.name)
+        return super().release()
 
 
 class SThread(threading.Thread):
@@ -277,6 +327,9 @@ class SThread(threading.Thread):
         st.sem.acquire()
         sys.settrace(s._tracer)
         try:
+            # a joiner waits for this thread as for a lock it holds from start to end
+            s.ev("lk", "try", "thread-join")
+            s.ev("wk", "handover")
             super().run()
         except (Deadlock, StepLimit) as e:
             s.failed = s.failed or e
@@ -284,6 +337,10 @@ class SThread(threading.Thread):
             st.exc = e
         finally:
             sys.settrace(None)
+            if st.exc is None and s.failed is None:
+                s.ev("wk", "exit")
+                s.ev("lk", "release", "thread-join")
+                s.ev("lk", "finish")
             self._sdone = True
             st.status = "done"
             s._handover(st, finishing=True)
@@ -292,4 +349,7 @@ class SThread(threading.Thread):
         s = SLock.SCHED
         if s is None or s.me() is None:
             return super().join(timeout)
+        s.ev("lk", "request", "thread-join")
         s.block_until(lambda: self._sdone, "join loop thread")
+        s.ev("lk", "grant")
+        s.ev("lk", "release", "thread-join")
